@@ -116,6 +116,38 @@ def translate(src) -> dict:
             "else:\n    shm = SharedMemory(create=True, size=mem.nbytes)",
             "if shm is not None:\n    shm.buf[:mem.nbytes] = mem",
             "self.buffers.append((shm, mem.nbytes))"], "serialize.py")
+    # which objects the pickler intercepts: tensors and tensor storages only; everything else -- NumPy arrays of
+    # every memory layout included -- is left to the object's own protocol-5 reduction
+    expect(ser, "SHMPickler", "reducer_override",
+           ["if isinstance(obj, torch.Tensor):\n"
+            "    if obj.is_sparse_csr:\n"
+            "        return (torch.sparse_csr_tensor, (obj.crow_indices(), obj.col_indices(), obj.values(), obj.shape))\n"
+            "    elif obj.layout == torch.sparse_csc:\n"
+            "        return (torch.sparse_csc_tensor, (obj.ccol_indices(), obj.row_indices(), obj.values(), obj.shape))\n"
+            "    else:\n"
+            "        return reduce_tensor(obj)",
+            "if isinstance(obj, torch.UntypedStorage):\n    return reduce_storage(obj)",
+            "return NotImplemented"], "serialize.py")
+    expect(ser, "SHMPickler", "__init__",
+           ["super().__init__(file, protocol, fix_imports=fix_imports, buffer_callback=self._buffer_cb)", "self.manager = manager", "self.buffers = []"],
+           "serialize.py")
+    cls = [n for n in ser.body if isinstance(n, ast.ClassDef) and n.name == "SHMPickler"]
+    if len(cls) != 1 or [ast.unparse(b) for b in cls[0].bases] != ["pickle.Pickler"] or cls[0].decorator_list or cls[0].keywords:
+        raise TranslateError("serialize.py: SHMPickler is not a plain subclass of pickle.Pickler")
+    members = [(type(n).__name__, getattr(n, "name", None) or ast.unparse(getattr(n, "target", n))) for n in pyq.strip_doc(list(cls[0].body))]
+    if members != [("AnnAssign", "manager"), ("AnnAssign", "buffers"), ("FunctionDef", "__init__"), ("FunctionDef", "_buffer_cb"), ("FunctionDef", "reducer_override")] \
+            or any(isinstance(n, ast.AnnAssign) and n.value is not None for n in cls[0].body) \
+            or any(isinstance(n, ast.FunctionDef) and n.decorator_list for n in cls[0].body):
+        raise TranslateError(f"serialize.py: SHMPickler has members other than manager, buffers, __init__, _buffer_cb, reducer_override "
+                             f"(a dispatch table or another reduction hook changes what travels how): {members}")
+    # nothing else in the module can take part in (un)pickling: imports, the logger, SHMData, SHMPickler, the two functions
+    top = []
+    for n in pyq.strip_doc(list(ser.body)):
+        if isinstance(n, (ast.Import, ast.ImportFrom)):
+            continue
+        top.append(getattr(n, "name", None) or ast.unparse(n))
+    if top != ["_log = logging.getLogger(__name__)", "SHMData", "SHMPickler", "shm_serialize", "shm_deserialize"]:
+        raise TranslateError(f"serialize.py: unexpected module-level definitions (rebuild helpers, copyreg registrations ...): {top}")
     got, _ = body_src(ser, None, "shm_deserialize")
     if len(got) != 2 or got[1] != "return pickle.loads(data.pickle, buffers=buffers)":
         raise TranslateError(f"serialize.py:shm_deserialize is not of the expected shape: {got}")
@@ -188,6 +220,7 @@ def translate(src) -> dict:
     text += "Definition seq_map_shape : map_shape := MapYieldEachInOrder.\n"
     text += "Definition pool_map_shape : map_shape := MapExecutorMap.\n"
     text += f"Definition shm_slice : slice_kind := {slice_kind}.\n"
+    text += "Definition reducer_dispatch : list reduce_rule := [RTensorCSR; RTensorCSC; RTensorTorch; RStorageTorch; ROwnReduction].\n"
     text += "Definition run_pipeline_steps : list rp_step := [RPQueryFromUserId; RPItemsIfTestItems; RPExtraOverride; RPRunAll; RPCopyOutputs].\n"
     text += "Definition batch_loop_shape : batch_loop := AddEachOutputUnderItsKey.\n"
     text += "Definition pool_shutdown : list shutdown_step := [ShutPool; ShutManager].\n"
